@@ -182,12 +182,19 @@ def execute(case, tmpdir):
     else:
         target = sink = open(path, 'wb')
     dump_state = ['open']
+    piped = rx.from_(rows).pipe(
+        P.dump_to_file(target, schema, batch_size=b, row_group_size=rgs,
+                       compression=None if comp == 'none-as-None' else comp))
+    if case.get('resub') and mode == 'path':
+        # the same built pipeline subscribed a second time (re-export): the file written by
+        # the second subscription is the one that is judged
+        try:
+            piped.subscribe(on_next=lambda i: None, on_error=lambda e: None)
+        except Exception:
+            pass
     with _Observe() as obs:
         try:
-            rx.from_(rows).pipe(
-                P.dump_to_file(target, schema, batch_size=b, row_group_size=rgs,
-                               compression=None if comp == 'none-as-None' else comp),
-            ).subscribe(on_next=lambda i: None,
+            piped.subscribe(on_next=lambda i: None,
                         on_error=lambda e: dump_state.__setitem__(0, 'error:' + type(e).__name__),
                         on_completed=lambda: dump_state.__setitem__(0, 'completed'))
         except Exception as e:
@@ -255,9 +262,14 @@ def execute(case, tmpdir):
     return tr
 
 
+_RESUB = [0]
+
+
 def mk_case(N, b, m, comp='snappy', mode='path', rgs=None, schema='ids', rowseed=0, origin='tlc'):
+    _RESUB[0] += 1
     return {'N': N, 'b': b, 'm': m, 'compression': comp, 'mode': mode,
-            'row_group_size': rgs, 'schema': schema, 'rowseed': rowseed, 'origin': origin}
+            'row_group_size': rgs, 'schema': schema, 'rowseed': rowseed, 'origin': origin,
+            'resub': mode == 'path' and _RESUB[0] % 3 == 0}
 
 
 def to_tlc(tr):
